@@ -103,10 +103,10 @@ theorem matchesWhole_cls_star (k1 k2 : Cls) (s : Str) :
     · simp only [hc, ↓reduceIte, Bool.true_and]; exact dropWhile_nil_all _ _
     · simp [hc]
 
-def identK1 : Cls := ⟨false, [.range 95 95, .range 97 122, .range 65 90]⟩
-def identK2 : Cls := ⟨false, [.range 95 95, .range 97 122, .range 65 90, .range 48 57]⟩
-def keyK1 : Cls := ⟨false, [.range 97 122, .range 65 90]⟩
-def keyK2 : Cls := ⟨false, [.range 45 45, .range 46 46, .range 95 95, .range 97 122, .range 65 90, .range 48 57]⟩
+def identK1 : Cls := ⟨false, [.range 65 90, .range 95 95, .range 97 122]⟩
+def identK2 : Cls := ⟨false, [.range 48 57, .range 65 90, .range 95 95, .range 97 122]⟩
+def keyK1 : Cls := ⟨false, [.range 65 90, .range 97 122]⟩
+def keyK2 : Cls := ⟨false, [.range 45 46, .range 48 57, .range 65 90, .range 95 95, .range 97 122]⟩
 
 theorem identifierRx_shape : Gen.identifierRx = .seq (.cls identK1) (.star (.cls identK2)) := rfl
 theorem basicKeyRx_shape : Gen.basicKeyRx = .seq (.cls keyK1) (.star (.cls keyK2)) := rfl
